@@ -145,3 +145,54 @@ WEXPORT int64_t w_kd3_lookup(const uint8_t* px, const uint8_t* py, const uint8_t
   }
   W_CATCH_ALL
 }
+
+// 3-D tree, remaining features (same scripts as the 2-D wrappers): e = {x, y, z, v} per erase call,
+// q = {qx, qy, qz, lox, loy, loz, hix, hiy, hiz}; entry codes KD_CODE3.
+static void kd3_build(Tree3& t, const uint8_t* px, const uint8_t* py, const uint8_t* pz, const uint8_t* pv, size_t np,
+    const uint8_t* e, size_t ne, int64_t* out) {
+  for (size_t i = 0; i < np; i++) {
+    t.insert(Pt3(px[i], py[i], pz[i]), pv[i]);
+  }
+  for (size_t i = 0; i < ne; i++) {
+    out[KD_ERASE + i] = t.erase(Pt3(e[4 * i], e[4 * i + 1], e[4 * i + 2]), e[4 * i + 3]);
+  }
+  out[KD_SIZE] = static_cast<int64_t>(t.size());
+}
+
+WEXPORT int64_t w_kd3_box(const uint8_t* px, const uint8_t* py, const uint8_t* pz, const uint8_t* pv, size_t np,
+    const uint8_t* e, size_t ne, const uint8_t* q, int64_t* out) {
+  try {
+    Tree3 t;
+    kd3_build(t, px, py, pz, pv, np, e, ne, out);
+    Pt3 lo(q[3], q[4], q[5]), hi(q[6], q[7], q[8]);
+    out[KD_EXISTS_BOX] = t.exists(lo, hi);
+    try {
+      auto r = t.within(lo, hi);
+      out[KD_WITHIN_N] = (r.size() > np) ? W_CAPACITY : static_cast<int64_t>(r.size());
+      for (size_t i = 0; i < np && i < r.size(); i++) {
+        out[KD_WITHIN + i] = KD_CODE3(r[i].first.x, r[i].first.y, r[i].first.z, r[i].second);
+      }
+    } catch (const std::out_of_range&) {
+      out[KD_WITHIN_N] = W_OUT_OF_RANGE;
+    }
+    return 0;
+  }
+  W_CATCH_ALL
+}
+
+WEXPORT int64_t w_kd3_iter(const uint8_t* px, const uint8_t* py, const uint8_t* pz, const uint8_t* pv, size_t np,
+    const uint8_t* e, size_t ne, const uint8_t* q, int64_t* out) {
+  try {
+    Tree3 t;
+    kd3_build(t, px, py, pz, pv, np, e, ne, out);
+    size_t n = 0;
+    auto it = t.begin();
+    for (; n <= np && it != t.end(); n++) {
+      out[KD_ITER + n] = KD_CODE3(it->first.x, it->first.y, it->first.z, it->second);
+      ++it;
+    }
+    out[KD_ITER_N] = (it != t.end()) ? W_CAPACITY : static_cast<int64_t>(n);
+    return 0;
+  }
+  W_CATCH_ALL
+}
